@@ -57,7 +57,6 @@ r1, r2 = runs(first), runs(final)
 
 NOTES = {
     "C06-10": "needs two imported packages with one name in the Dart-facing profile; C06 generates same-named packages for the analysis-only properties only (its Dart file-name model is keyed by package path and has not been extended to aliased imports): the shape is never generated (DESIGN.md 8.6, round 6)",
-    "C07-10": "needs a sibling package that declares a constant of another sibling's enum; the synthesiser only lets the analysed package declare such constants: the shape is never generated (DESIGN.md 8.6, round 6)",
     "C14-10": "needs a time-typed endpoint type (a user type called Time over time.Time); the route type pool has no time types (the Node harness would need values for them): the shape is never generated (DESIGN.md 8.6, round 6)",
     "C05-6": "needs a column named like an SQL reserved word (Order, Group, User, ...): on the unchanged tree such a column already gives a schema PostgreSQL refuses, so these names are a documented precondition of the property and are never generated (DESIGN.md 3.1, 8.6)",
     "C15-5": "needs an imported package named like the analysed one (or two imported packages with one name); for a property that compiles the generated Go this is outside the domain: the import-fixing pass resolves the package-name qualifier to the package itself on the unchanged tree as well (import cycle). The same change is caught by C10 (tools/seedrun.sh seeded/C15-5 C10 quick 1: VIOLATION) and C11, where only the analysis is observed",
